@@ -84,7 +84,9 @@ def _signature1(P, b):
                 continue
             t = up(S.rvalue(s["r"], i, j))
             fields = s["r"].get("fields") or []
-            roles = tuple((f, _role(x)) for f, x in zip(fields, t[4]) if _role(x) != "-")
+            # a field filled from the like-named field of the input (`http_request: package.http_request.map(..)`) routes nothing: it is
+            # what the copy that fills the struct field by field does without building an aggregate
+            roles = tuple((f, _role(x)) for f, x in zip(fields, t[4]) if _role(x) != "-" and not ({"cli:" + f, "srv:" + f} & set(_role(x).split("+"))))
             var = s["r"].get("variant")
             if roles or var in ("Client", "Server"):
                 sig[("agg", _norm(path.rsplit("::", 1)[-1]), var if var in ("Client", "Server") else None, roles)] += 1
